@@ -124,8 +124,24 @@ claim("C20",
  "The file system is a model (no reordering of writes across files, no fsync semantics); the loaders (wallet.NewService over *.wlt, kvstorage over its own file) are represented by the file-content criterion stated above rather than executed (encoding/json is not encoded). The serialisation before the save and directory listing are outside.",
  "DESIGN.md §4 C20")
 
+
+claim("C10",
+ "Symbolic check of what third parties can change: (1) the acceptance gates of secp256k1.VerifySignature and VerifySignatureValidity over every 65-byte signature, message and key: an accepted signature has a recovery id below 4 and the top bit of s clear, and (listed finding) s at most half the group order; (2) byte binding: two transactions (1..2 inputs, 1..2 outputs each, all fields free) that both pass Transaction.Verify and whose signed messages SHA256(inner||input) coincide agree on length, type, inner hash, every input and every output, i.e. every byte outside the signature array is covered by what is signed (trailing bytes are excluded by C09's canonical decoding).",
+ "Public-key recovery (curve arithmetic) returns nil or arbitrary bytes; SHA256 collision free; signature recovery an uninterpreted predicate. Outside: the algebraic malleations themselves (negating s, adding n to r) need the group law; block-level binding is argued from C04 (stored header = signed header) and the Merkle body hash. One listed finding: high-s signatures in (n/2, 2^255) pass the gate.",
+ "DESIGN.md §4 C10")
+
+claim("C26",
+ "Bounded check of the peer list: from every list of 0..2 existing peers (trusted or not; last seen just now, two days ago or never) and every configured maximum 0..3, one operation - Pex.AddPeers with 0..3 addresses drawn from clean, whitespace-bearing and malformed candidates under any shuffle, Pex.AddPeer, or expiry of old peers - leaves only validated, sanitised addresses in the list, never grows the list beyond max(previous size, maximum) on bulk addition, evicts nobody on bulk addition, never evicts a trusted peer to make room and never drops a trusted peer as stale.",
+ "validateAddress is summarised by its contract (strip whitespace, accept well-formed public ip:port) - its text parsing (regular expression, net.ParseIP, strconv) is not encoded, so 'global unicast IPv4 and port >= 1024' itself is outside this revision; rand.Shuffle is an arbitrary permutation, the clock a fixed instant. Mostly concrete enumeration of a finite space with solver-checked branches.",
+ "DESIGN.md §4 C26 (H1 built; H2 pending)")
+
+claim("C27",
+ "Symbolic and bounded checks of API access control: basicAuth with configured and presented credentials of 0..2 free bytes reaches the endpoint iff exactly the configured username and password are presented (or none is configured and none presented), else 401; hostCheck and originRefererCheck admit exactly the acceptable Host / Origin / Referer values for a localhost or public configuration, else 403; CSRFCheck lets a POST/PUT/DELETE through iff token checking is off or the token verifies; ContentTypeJSONRequired; and the route table: newServerMux is executed and on every registered route an acceptable request reaches the endpoint, a DNS-rebinding Host is refused when header checking is on, wrong credentials are refused, and a POST without a valid token is refused when token checking is on (except the token endpoint itself).",
+ "Reduced: net/http routing, CORS, gzip and TLS are outside; the endpoint logic and the per-method API-set filter wrapped around it are replaced by a probe in the route-table harness (so 'method served and API set enabled' is not checked); token verification (HMAC, base64, JSON, clock) is an arbitrary verdict, so 'requesting a new token invalidates earlier ones' is not checked (by reading it does not hold: tokens are stateless). SHA256 collision free.",
+ "DESIGN.md §4 C27")
+
 _pending = "check not built yet in this revision (work in progress; see DESIGN.md §4)"
-for p in ["C10","C14","C16","C17","C19","C26","C27","C30","C33"]:
+for p in ["C14","C16","C17","C19","C30","C33"]:
     na(p, _pending)
 na("C08", "crash points inside boltdb's mmap/page commit and fsync ordering plus the goroutine/channel WalkChain pipeline cannot be encoded by an SSA->SMT executor (no I/O ordering or scheduling semantics)")
 na("C32", "race freedom and shutdown under all goroutine schedules: the encoder has no thread/channel semantics; the race detector is a dynamic technique outside this family")
